@@ -297,6 +297,10 @@ def check_history(case, ctx):
                     model, dmap = relabel_model(model, dmap)
             elif name == 'setdata':
                 rng = np.random.default_rng(op[1])
+                if op[1] % 3 == 0:
+                    # assigning an array of a different shape is allowed
+                    ny, nx = ny + 1 + op[1] % 2, max(2, nx - 1 + op[1] % 4)
+                    ctx.event('setdata_new_shape')
                 new = rng.choice([0, 0, 0, 1, 2, 5, 9], size=(ny, nx)).astype(dt)
                 real.data = new.copy()
                 model, dmap = new, {}
